@@ -31,6 +31,7 @@ def judgeLine (line : String) : String :=
     | "C05M" => judgeC05M
     | "HIST" => judgeHist
     | "C17" => judgeC17
+    | "C17R" => judgeC17R
     | "C02" => judgeC02
     | "PANIC" => do
       let k ← tok; let _ ← tok; let _ ← tok
